@@ -153,6 +153,16 @@ fn start_history(hist: &Value, tmpdir: &str, dict: &Dict) -> Result<Live, Value>
             Ok(cf) => Ok(Live { cf: Some(cf), snap, handles: HashMap::new(), maxbuf, chunks }),
             Err(e) => Err(res_err(e)),
         }
+    } else if hist["backend"]["kind"].as_str() == Some("path") && hist["ver"].as_u64() != Some(3) {
+        // the file-backed constructors of the public API: cfb::create(path) on a path that already
+        // holds a longer, unrelated file (version 4 only: that is what cfb::create produces)
+        std::fs::create_dir_all(tmpdir).ok();
+        let path = PathBuf::from(format!("{}/img_{}_{}.cfb", tmpdir, std::process::id(), hid.replace('/', "_")));
+        std::fs::write(&path, vec![0xABu8; 20_000]).map_err(res_err)?;
+        let cf0 = cfb::create(&path).map_err(res_err)?;
+        let f = cf0.into_inner();
+        let cf = open_with(Any::File(f), false, maxbuf).map_err(res_err)?;
+        Ok(Live { cf: Some(cf), snap: Snap::File(path), handles: HashMap::new(), maxbuf, chunks: vec![] })
     } else {
         let ver = if hist["ver"].as_u64() == Some(3) { cfb::Version::V3 } else { cfb::Version::V4 };
         let (any, snap, chunks) = new_backend(hist, Vec::new(), tmpdir, hid);
@@ -535,6 +545,7 @@ fn main() {
         None => json!({}),
     };
     let tmpdir = script["tmpdir"].as_str().unwrap_or("/verif/work/tmp").to_string();
+    cfb_verif_harness::watchdog::start(script["hist_limit_ms"].as_u64().unwrap_or(90_000));
     let out = std::fs::File::create(&args[2]).expect("out");
     let mut out = BufWriter::new(out);
     let iopt = indep::Options::default();
@@ -551,6 +562,8 @@ fn main() {
         if let Some(j) = &journal {
             std::fs::write(j, format!("{}", hi)).ok();
         }
+        out.flush().unwrap();
+        cfb_verif_harness::watchdog::begin();
         let heavy_mode = hist["heavy"].as_str().unwrap_or("all").to_string();
         let want_reopen = hist["reopen"].as_bool().unwrap_or(true);
         let want_img = hist["img"].as_bool().unwrap_or(true);
@@ -639,6 +652,7 @@ fn main() {
         }
         live.handles.clear();
         live.cf = None;
+        cfb_verif_harness::watchdog::end();
         if let Snap::File(p) = &live.snap {
             std::fs::remove_file(p).ok();
         }
